@@ -348,6 +348,8 @@ def run(chk):
     chk.guard(rule_r5, chk)
     from .. import variants
     chk.guard(variants.apply, chk, "C18-R6", [("irispie.red_vars._simulators", "_simulate"), ("irispie.red_vars._estimators", "Inlay.estimate")])
+    from .. import unused as _unused
+    chk.guard(_unused.apply, chk, "C18-R91")
     from .. import args as _args
     chk.guard(_args.apply, chk, "C18-R90", {'red_vars'}, 1)
     chk.assumptions = [
